@@ -104,10 +104,57 @@ class C14(Prop):
         self.last_n = n_eval
         return None
 
+    def wide_sweep(self):
+        n_eval = 0
+        for prog in lc.WIDE:
+            n_eval += 1
+            pulls, err = lc.pulls_for(prog, 20, seconds=4)
+            if err is not None or pulls > 50:
+                return dict(transformation="element " + prog, program=prog, n=20, pulls=pulls, bound=50, error=err), n_eval
+        return None, n_eval
+
+    def flag_cases(self):
+        """the interpreter's own prefix step: the `…` flag cuts the top of the stack to 100 items before later output flags read it"""
+        import contextlib
+        import io
+        import signal
+        from vyxal.main import execute_vyxal
+
+        class Expired(Exception):
+            pass
+
+        def on_alarm(*a):
+            raise Expired()
+
+        n = 0
+        for prog, flags in (("Þ∞ ƛ2*;", "e…S"), ("Þ∞ ƛ2*;", "e…j"), ("Þ∞ ¦", "e…l"), ("Þ∞ 2 ẇ", "e…l"), ("Þ∞", "e…L"), ("Þ∞ ›", "e…s")):
+            n += 1
+            buf = io.StringIO()
+            old = signal.signal(signal.SIGALRM, on_alarm)
+            signal.alarm(6)
+            try:
+                with contextlib.redirect_stdout(buf):
+                    execute_vyxal(prog, flags, [])
+                err = None
+            except Expired:
+                err = "did not terminate within 6 s"
+            except BaseException as e:  # noqa
+                err = None  # an error message is an answer too; only non-termination counts here
+            finally:
+                signal.alarm(0)
+                signal.signal(signal.SIGALRM, old)
+            if err:
+                return dict(transformation="flag …", program=prog, flags=flags, n=100, pulls=-1, bound=0, error=err), n
+        return None, n
+
     def bounded(self, W, tier, seed):
         ns = [0, 1, 2, 3, 7, 20, 40] if tier != "thorough" else list(range(0, 41))
         w = self.sweep(ns)
-        return [dict(name="C14/bounded-pull-counts", what="catalogued transformations and compositions applied to an instrumented infinite source; the first n items (or item n) must terminate within a*n+b pulls", bound=f"{len(lc.CATALOGUE)} transformations, n in {ns if len(ns) < 10 else '0..40'}", evaluations=self.last_n, label="bounded", failures=[w] if w else [])]
+        w2, n2 = self.wide_sweep()
+        wide = dict(name="C14/bounded-element-sweep", what="every element that delivers a prefix of its result on an infinite list on the pinned tree (found by a sweep over the whole table) applied to an instrumented infinite source: item 0..19 of the result within 50 pulls and 4 s", bound=f"{len(lc.WIDE)} element applications, n = 20", evaluations=n2, label="bounded", failures=[w2] if w2 else [])
+        w3, n3 = self.flag_cases()
+        flagc = dict(name="C14/bounded-flag-prefix", what="infinite list on top of the stack, run through execute_vyxal with the flag … followed by an output flag that reads the whole value (S, j, l, L, s): must terminate", bound="6 program / flag combinations, 6 s each", evaluations=n3, label="bounded", failures=[w3] if w3 else [])
+        return [wide, flagc, dict(name="C14/bounded-pull-counts", what="catalogued transformations and compositions applied to an instrumented infinite source; the first n items (or item n) must terminate within a*n+b pulls", bound=f"{len(lc.CATALOGUE)} transformations, n in {ns if len(ns) < 10 else '0..40'}", evaluations=self.last_n, label="bounded", failures=[w] if w else [])]
 
     def replay(self, W, report, ob):
         return self.sweep([0, 1, 5, 20])
